@@ -11,6 +11,9 @@ printed rationals are compared byte for byte with
     scale, sort_rows, transpose and product in storage order, remote rows, Gershgorin) and
   * the SERIAL kernels of Kernels.v/MatOps.v applied to the global matrix and cut along the
     partition (transpose, product, (A^T)x, (AB)x, copy to another backend).
+Every op's per-rank output ends with the verdict of the PMPI request-discipline monitor (harness/pmpi_trace.hpp), "PMPI ok" on the
+model side; op xtrace compares the recorded MPI call sequence of two consecutive products with the program DistMsg.exch_rounds;
+"tr:<op>" lines return the call sequence of <op>, which is checked by the extracted discipline checkers of DistMsg.v (msgcheck).
 Oracles: Gershgorin estimate = serial value on every rank ("gersh_spec", also with 2..5 OpenMP threads per
 rank: "gersht"); power-method estimate bitwise identical on all ranks.
 """
@@ -18,16 +21,18 @@ import random
 from fractions import Fraction as F
 from vcheck import fmt_q, fmt_vec, fmt_ivec, fmt_crs
 import gen
-from props.common import account
+from props.common import account, oracle_run
 from props.mpi_common import run_mpi
 
 DRIVERS = ["mpi_algebra"]
 MODEL = "dist"
 MPIRUN = ["mpirun", "--allow-run-as-root", "--oversubscribe", "--bind-to", "none", "--mca", "mpi_yield_when_idle", "1", "-n"]
 ASSUMPTIONS = [
-    "MPI runtime (Open MPI 4.1): Allgather/Alltoall/Allreduce/point-to-point deliver what the model's pure functions say; "
-    "progress, deadlock freedom and message arrival order are NOT modelled (the code uses no MPI_ANY_SOURCE/ANY_TAG/Waitany; "
-    "every receive names source, tag and its own buffer slice) -- covered by the mpirun runs under timeout only",
+    "MPI runtime (Open MPI 4.1): Allgather/Alltoall/Allreduce deliver what the model's pure functions say; progress and deadlock "
+    "freedom are NOT modelled (mpirun under timeout only)",
+    "message arrival order: MPI's non-overtaking rule is the matching function of the message-passing model DistMsg.v (trusted); that "
+    "the call sequence recorded by harness/pmpi_trace.hpp (PMPI interposition inside the driver) is what the library does, and that "
+    "send buffers are written where the model says (the shim sees MPI calls and buffer snapshots, not memory accesses)",
     "the MPI harness runs the templates at double on small dyadic inputs (all operations exact in binary64) and prints exact "
     "rationals; the templates at double execute the same algorithm as at an exact field",
     "copy between backends: compared with the SERIAL Coq kernels on the assembled matrix (correspondence only); remote-row "
@@ -35,12 +40,14 @@ ASSUMPTIONS = [
     "power-method spectral radius: only rank-consistency (bitwise identical on all ranks) is checked",
 ]
 TRUSTED_BASE = [
-    "mpirun/Open MPI 4.1.4, mpicxx (g++ 12); harness/drv_mpi_algebra.cpp gathers per-rank strings on rank 0",
+    "mpirun/Open MPI 4.1.4, mpicxx (g++ 12); harness/drv_mpi_algebra.cpp gathers per-rank strings on rank 0; harness/pmpi_trace.hpp",
 ]
 RULE = ("cases derived from VERIF_SEED by tools/props/C11.py: every contiguous partition (empty ranks included) of n <= 5 "
         "(thorough: n <= 7) rows over 1..4 (1..8) ranks x all ops on random dyadic matrices (square and rectangular, duplicate "
-        "columns, unsorted rows), plus random n <= 30; distinct = distinct (op, payload); non-trivial = implementation output "
-        "contains a non-zero value and is not an exception")
+        "columns, unsorted rows), plus random n <= 30; Gershgorin on matrices with a full diagonal and on matrices with rows "
+        "without diagonal entry / duplicate diagonal entries, 1..5 OpenMP threads per rank; structurally one-way couplings (block "
+        "lower bidiagonal: ranks that only send / only receive) with 2-3 consecutive products; MPI call-sequence cases (xtrace, tr:<op>); "
+        "distinct = distinct (op, payload); non-trivial = implementation output contains a non-zero value and is not an exception")
 
 TIMEOUT = 240
 
@@ -77,8 +84,17 @@ def cases(tier, seed):
         b = fmt_crs(m, k, B)
         add(np_, "product", a, RP, CP, b, KP)
         add(np_, "product_s", a, RP, CP, b, KP)
+        # the MPI call sequence of two consecutive products = the program DistMsg.exch_rounds (proved disciplined and
+        # arrival-order independent); traces of the other exchanges go to the extracted discipline checker ("tr:")
+        if heavy or r.random() < 0.5: add(np_, "xtrace", a, RP, CP, fmt_vec(x), fmt_vec(gen.dyvec(r, m)))
+        if r.random() < 0.4:
+            top = r.choice(["transpose", "product", "rrows", "split", "spmvres", "tspmv"])
+            if top in ("transpose", "split", "tspmv"): add(np_, "tr:" + top, a, RP, CP, *([fmt_vec(y)] if top == "tspmv" else []))
+            elif top == "spmvres": add(np_, "tr:spmvres", a, RP, CP, fmt_vec(x), fmt_vec(f), fmt_vec(gen.dyvec(r, m)), fmt_vec(gen.dyvec(r, m)))
+            else: add(np_, "tr:" + top, a, RP, CP, b, KP)
         if heavy:
             add(np_, "spmv2", a, RP, CP, fmt_vec(x), fmt_vec(gen.dyvec(r, m)))
+            add(np_, "spmvres", a, RP, CP, fmt_vec(x), fmt_vec(f), fmt_vec(gen.dyvec(r, m)), fmt_vec(gen.dyvec(r, m)))
             add(np_, "rrows", a, RP, CP, b, KP)
             add(np_, "scale", a, RP, CP, fmt_q(r.choice([F(2), F(-1), F(1, 2), F(0), F(3)])))
             add(np_, "sort_rows", a, RP, CP)
@@ -123,6 +139,35 @@ def cases(tier, seed):
             M = gen.dyadic_spd(r, n)
             add(np_, "power", r.choice([0, 1]), r.choice([1, 2, 5]), fmt_crs(n, n, M), P)
 
+    def oneway_ops(np_, p):
+        """structurally NON-symmetric coupling: the rows of rank k reference only columns of ranks <= k (block lower
+        bidiagonal + a few entries further down-left), so the first non-empty rank only SENDS ghost values and the
+        last one only RECEIVES; consecutive products / residuals on the same matrix (buffers and request variables
+        reused while a slow neighbour may still be in the previous exchange)"""
+        n = sum(p)
+        if n == 0 or np_ < 2: return
+        beg = [sum(p[:k]) for k in range(np_ + 1)]
+        own = [k for k in range(np_) for _ in range(p[k])]
+        A = []
+        for i in range(n):
+            k = own[i]
+            rw = [(i, F(r.choice([1, 2, -3, 4])))]
+            prev = [q for q in range(k) if p[q] > 0]
+            if prev:
+                q = prev[-1]
+                rw.append((r.randrange(beg[q], beg[q + 1]), F(r.choice([-1, 2, 1, 3]))))
+                if len(prev) > 1 and r.random() < 0.4:
+                    q2 = r.choice(prev[:-1]); rw.append((r.randrange(beg[q2], beg[q2 + 1]), F(r.choice([1, -2]))))
+            if r.random() < 0.3: r.shuffle(rw)
+            A.append(rw)
+        a = fmt_crs(n, n, A); P = fmt_ivec(p)
+        x1, x2, x3, f = gen.dyvec(r, n), gen.dyvec(r, n), gen.dyvec(r, n), gen.dyvec(r, n)
+        add(np_, "spmv2", a, P, P, fmt_vec(x1), fmt_vec(x2))
+        add(np_, "spmvres", a, P, P, fmt_vec(x1), fmt_vec(f), fmt_vec(x2), fmt_vec(x3))
+        add(np_, "xtrace", a, P, P, fmt_vec(x1), fmt_vec(x2))
+        add(np_, "tr:spmvres", a, P, P, fmt_vec(x1), fmt_vec(f), fmt_vec(x2), fmt_vec(x3))
+        add(np_, "cpat", a, P, P)
+
     ranks = [1, 2, 3, 4] if quick else [1, 2, 3, 4, 5, 6, 7, 8]
     nmax = 5 if quick else 7
     for np_ in ranks:
@@ -140,6 +185,7 @@ def cases(tier, seed):
                         m = r.randint(0, nmax + 1); k = r.randint(0, nmax)
                         ops_for(np_, n, p, m, gen.rcomposition(r, m, np_), k, gen.rcomposition(r, k, np_))
                     square_ops(np_, n, p)
+                    if r.random() < 0.3: oneway_ops(np_, p)
         # ---- random larger
         for it in range(60 if quick else 150):
             n = r.randint(6, 30); m = r.choice([n, n, r.randint(1, 30)]); k = r.choice([n, r.randint(1, 30)])
@@ -147,6 +193,7 @@ def cases(tier, seed):
             cp = rp if (m == n and r.random() < 0.7) else gen.rcomposition(r, m, np_)
             ops_for(np_, n, rp, m, cp, k, gen.rcomposition(r, k, np_), heavy=(it % 2 == 0))
             square_ops(np_, n, rp)
+            if it % 3 == 0: oneway_ops(np_, rp)
     return out
 
 
@@ -167,8 +214,10 @@ def run(ctx, cases_override=None):
     for np_ in sorted(groups):
         ls = groups[np_]
         shards = {1: 4, 2: 3, 3: 2, 4: 2}.get(np_, 1) if len(ls) > 50 else 1
-        modelled = [l for l in ls if l.split(" ", 2)[1] != "power"]
-        unmodelled = [l for l in ls if l.split(" ", 2)[1] == "power"]
+        opof = lambda l: l.split(" ", 2)[1]
+        modelled = [l for l in ls if opof(l) != "power" and not opof(l).startswith("tr:")]
+        unmodelled = [l for l in ls if opof(l) == "power"]
+        traced = [l for l in ls if opof(l).startswith("tr:")]
         impl = run_mpi(ctx, ctx["cpp"]["mpi_algebra"], modelled, np_, MPIRUN, shards=shards, timeout=TIMEOUT + 30,
                        env={"OMP_NUM_THREADS": "1"})
         model = ctx["run_driver"](ctx["model"], modelled)
@@ -203,6 +252,33 @@ def run(ctx, cases_override=None):
                                       oracle=dict(op=op + "_spec", expected=b, got=a),
                                       theorem="C11 collective scalar: Gershgorin spectral-radius estimate identical on all "
                                               "ranks and equal to the serial value (%d ranks)" % np_))
+        # ---- oracle: the extracted request-discipline checkers of DistMsg.v on the call sequences the PMPI shim recorded
+        if traced:
+            impl3 = run_mpi(ctx, ctx["cpp"]["mpi_algebra"], traced, np_, MPIRUN, shards=1, timeout=TIMEOUT + 30,
+                            env={"OMP_NUM_THREADS": "1"})
+            account(ctx, traced, impl3, nontrivial=lambda op, p, o: bool(o) and (" R" in " " + o or " S" in " " + o))
+            olines = []; byid = {}
+            for l in traced:
+                cid, op = l.split(" ", 2)[:2]
+                byid[cid] = l
+                o = impl3.get(cid)
+                per = [v.strip() for v in (o or "").split(" ; ")]
+                if o is None or o.startswith("CRASH") or len(per) != np_ or not all(v.endswith("PMPI ok") for v in per):
+                    ctx["stats"]["mismatches"] += 1
+                    fails.append(dict(kind="counterexample", case=l, impl=o, model=" ; ".join(["<trace> PMPI ok"] * np_), op=op,
+                                      size=len(l), np=np_,
+                                      theorem="MPI request discipline (a)-(f) of harness/pmpi_trace.hpp on %s (%d ranks): hypothesis of "
+                                              "C11_any_arrival_order_deterministic" % (op, np_)))
+                    continue
+                toks = []
+                for v in per:
+                    tr = v[:-len("PMPI ok")].split()
+                    tr = [] if tr == ["-"] else tr
+                    toks.append("%d %s" % (len(tr), " ".join(tr)))
+                olines.append("%s msgcheck %d %s" % (cid, np_, " ".join(toks)))
+            fails += [dict(f, np=np_) for f in oracle_run(ctx, olines,
+                      "extracted DistMsg.all_waited / slots_exclusive / chans_exclusive / channel balance on the recorded MPI call "
+                      "sequence (%d ranks): hypotheses of C11_any_arrival_order_deterministic" % np_, lambda cid: byid[cid])]
         # ---- oracle: power-method estimate bitwise identical on all ranks
         if unmodelled:
             impl2 = run_mpi(ctx, ctx["cpp"]["mpi_algebra"], unmodelled, np_, MPIRUN, shards=1, timeout=TIMEOUT + 30,
@@ -213,11 +289,13 @@ def run(ctx, cases_override=None):
                 ctx["stats"]["oracle_checks"] += 1
                 o = impl2.get(cid)
                 vals = [v.strip() for v in (o or "").split(";")]
-                if o is None or len(vals) != np_ or len(set(vals)) != 1 or not vals[0].startswith("bits:"):
+                if (o is None or len(vals) != np_ or len(set(vals)) != 1 or not vals[0].startswith("bits:")
+                        or not vals[0].endswith(" PMPI ok")):
                     ctx["stats"]["oracle_fail"] += 1
                     fails.append(dict(kind="counterexample", case=l, impl=o, model=None, op=op, size=len(l), np=np_,
                                       oracle=dict(op="all-ranks-identical", got=o),
-                                      theorem="C11 collective scalar: power-method estimate identical on all ranks (%d ranks)" % np_))
+                                      theorem="C11 collective scalar: power-method estimate identical on all ranks, request "
+                                              "discipline kept (%d ranks)" % np_))
     return fails
 
 
@@ -230,8 +308,8 @@ def classify(fail):
     o = fail.get("oracle") or {}
     if fail.get("op") in ("gersh", "gersht") and o.get("op", "").endswith("_spec") and fail.get("impl") and o.get("expected"):
         try:
-            got = [F(v) for v in fail["impl"].split(" ; ")]
-            exp = [F(v) for v in o["expected"].split(" ; ")]
+            got = [F(v.replace(" PMPI ok", "")) for v in fail["impl"].split(" ; ")]
+            exp = [F(v.replace(" PMPI ok", "")) for v in o["expected"].split(" ; ")]
             if len(got) == len(exp) and max(got) == exp[0] and any(g < exp[0] for g in got):
                 sig = dict(site="mpi-spectral_radius-gershgorin", defect="rank-local-maximum-not-reduced",
                            impl_matches_faithful_model=(fail["impl"] == fail.get("model")))
